@@ -533,6 +533,17 @@ def lower6(ctx) -> List[Ob]:
                                     adds = [c2 for c2 in method_calls(m.node, "add") if A.unparse(c2.func.value) == R]
                                     if seeds and adds:
                                         reason = f"only blocks outside '{R}' are deleted (filter in the iterable) and '{R}' is the closure of a work-list seeded with the entry {entry!r}"
+            # (b'') the deletions as the elements of a display that filters by itself: {self.pop(k) for k in self if k not in R}
+            if reason is None and kname:
+                for anc in A.ancestors(d):
+                    if isinstance(anc, (ast.SetComp, ast.ListComp)) and len(anc.generators) == 1 and A.unparse(anc.generators[0].target) == kname:
+                        for c_ in anc.generators[0].ifs:
+                            if isinstance(c_, ast.Compare) and len(c_.ops) == 1 and isinstance(c_.ops[0], ast.NotIn) and A.unparse(c_.left) == kname:
+                                R = A.unparse(c_.comparators[0])
+                                seeds = [s_ for s_ in A.walk_no_nested(m.node) if isinstance(s_, (ast.Assign, ast.AnnAssign)) and s_.value is not None and repr(entry) in A.unparse(s_.value).replace('"', "'")]
+                                adds = [c2 for c2 in method_calls(m.node, "add") if A.unparse(c2.func.value) == R]
+                                if seeds and adds:
+                                    reason = f"only blocks outside '{R}' are deleted (filter of the display) and '{R}' is the closure of a work-list seeded with the entry {entry!r}"
             # (a') the same exclusion anywhere in the conditions under which the deletion runs
             if reason is None and kname:
                 from .ctrl import _guard_conditions
@@ -621,7 +632,14 @@ def lower8(ctx) -> List[Ob]:
         raise AnalysisError("codegen: arms for RegionBlock / SyntheticExitingLatch not found")
 
     def fstrings(body):
-        return [(s, A.unparse(s.value)) for s in A.walk_no_nested(ast.Module(body, [])) if isinstance(s, ast.Assign) and isinstance(s.value, ast.JoinedStr)]
+        found = [(s, A.unparse(s.value), s.value) for s in A.walk_no_nested(ast.Module(body, [])) if isinstance(s, ast.Assign) and isinstance(s.value, ast.JoinedStr)]
+        # the name built where it is used: ast.Name(f"..")
+        for c_ in A.walk_no_nested(ast.Module(body, [])):
+            if isinstance(c_, ast.Call) and (A.dotted(c_.func) or "") == "ast.Name" and c_.args and isinstance(c_.args[0], ast.JoinedStr):
+                st_ = A.enclosing_stmt(c_)
+                if st_ is not None and not any(f_[2] is c_.args[0] for f_ in found) and not any(f_[1] == A.unparse(c_.args[0]) and f_[0] is st_ for f_ in found):
+                    found.append((st_, A.unparse(c_.args[0]), c_.args[0]))
+        return found
 
     lf, rf = fstrings(larm.body), fstrings(rarm.body)
     key = "same flag skeleton in loop and latch"
@@ -634,7 +652,7 @@ def lower8(ctx) -> List[Ob]:
         out.append(unresolved("LOWER-8", cg.qualname, key, ctx.where(cg), "cannot find the loop flag names"))
         return out
     counter = None
-    for n in ast.walk(rf[0][0].value):
+    for n in ast.walk(rf[0][2]):
         if isinstance(n, ast.FormattedValue):
             counter = A.unparse(n.value)
     # loop arm: counter incremented before the flag name is built and before the body is generated
@@ -1201,10 +1219,33 @@ def lower14(ctx) -> List[Ob]:
         key = "coinciding successors collapsed"
         where = ctx.where(fn, stores[-1])
         guards = []
+        x_node = stores[0].targets[0].value
+        x_alts = {X}
+        if isinstance(x_node, ast.Name):
+            st_ = see_through(ctx, fn, x_node)
+            if st_ is not None:
+                x_alts.add(A.unparse(st_))
         for g in A.walk_no_nested(fn.node):
             if isinstance(g, ast.If):
                 t = A.unparse(g.test)
-                if t in (f"{X}[0] == {X}[1]", f"{X}[1] == {X}[0]", f"len(set({X})) == 1", f"len(set({X})) < len({X})", f"len({X}) == 2 and {X}[0] == {X}[1]"):
+                if any(t in (f"{x}[0] == {x}[1]", f"{x}[1] == {x}[0]", f"len(set({x})) == 1", f"len(set({x})) < len({x})", f"len({x}) == 2 and {x}[0] == {x}[1]") for x in x_alts):
+                    guards.append(g)
+                    continue
+                # `<arity test> and X[0] == X[1]`: the arity test (on len(X), or on a local that holds it) only says
+                # that there are two successors to compare
+                conj = g.test.values if isinstance(g.test, ast.BoolOp) and isinstance(g.test.op, ast.And) else []
+                eqs = [c for c in conj if any(A.unparse(c) in (f"{x}[0] == {x}[1]", f"{x}[1] == {x}[0]") for x in x_alts)]
+                rest = [c for c in conj if c not in eqs]
+
+                def _arity(c) -> bool:
+                    if not (isinstance(c, ast.Compare) and len(c.ops) == 1 and isinstance(c.ops[0], (ast.Eq, ast.GtE, ast.Gt)) and isinstance(c.comparators[0], ast.Constant) and c.comparators[0].value in (1, 2)):
+                        return False
+                    l_ = c.left
+                    if isinstance(l_, ast.Name):
+                        l_ = see_through(ctx, fn, l_) or l_
+                    return any(A.unparse(l_) == f"len({x})" for x in x_alts)
+
+                if len(eqs) == 1 and rest and all(_arity(c) for c in rest):
                     guards.append(g)
         if not guards:
             out.append(bad("LOWER-14", fn.qualname, key, where, f"{fn.name} renames successors but never checks whether the two successors of a block have become the same block: 'if c: pass' (both arms empty) yields a block with two identical successors, which restructuring cannot handle (AssertionError in extract_region)"))
@@ -1212,7 +1253,7 @@ def lower14(ctx) -> List[Ob]:
         g = guards[0]
         last_store_line = max(A.lineno(s) for s in stores)
         body_txt = [A.unparse(s) for s in g.body]
-        shrinks = any(t in (f"{X}.pop()", f"{X}.pop(1)", f"{X}.pop(-1)", f"del {X}[1]", f"del {X}[-1]", f"{X}[:] = {X}[:1]", f"del {X}[1:]") for t in body_txt)
+        shrinks = any(t in (f"{x}.pop()", f"{x}.pop(1)", f"{x}.pop(-1)", f"del {x}[1]", f"del {x}[-1]", f"{x}[:] = {x}[:1]", f"del {x}[1:]") for t in body_txt for x in x_alts)
         wraps = any(isinstance(s, ast.Assign) and A.unparse(s.targets[0]).endswith(".instructions[-1]") and isinstance(s.value, ast.Call) and (A.dotted(s.value.func) or "") == "ast.Expr" and s.value.args and A.unparse(s.value.args[0]) == A.unparse(s.targets[0]) for s in g.body)
         # the check sits in a loop that also contains the renames (the per-block loop; the renames may sit in an
         # inner loop over the positions)
@@ -1535,3 +1576,46 @@ def lower18(ctx) -> List[Ob]:
     if n == 0:
         out.append(unresolved("LOWER-18", cg.qualname, "arm body looked up from", ctx.where(cg), "no lookup of a successor found in the branching arm of codegen"))
     return out
+
+
+@rule("LOWER-20", 1, "a front-end handler writes jump targets / statements to the block that is current when it does so: a local that captured `self.current_block` is not used after a call that can split or replace the current block (lowering an expression that contains and/or opens new blocks)")
+def lower20(ctx) -> List[Ob]:
+    out: List[Ob] = []
+    front = ctx.prog.cls(FRONT)
+    em = _emitters(ctx) | {"add_block", "codegen", "handle_expression", "handle_bool_op"}
+    n = 0
+    for mname, m in sorted(front.methods.items()):
+        cfg = ctx.cfg(m)
+        caps = [s_ for s_ in A.walk_no_nested(m.node) if isinstance(s_, ast.Assign) and len(s_.targets) == 1 and isinstance(s_.targets[0], ast.Name) and A.unparse(s_.value) == "self.current_block"]
+        for cap in caps:
+            v = cap.targets[0].id
+            uses = []
+            for x in A.walk_no_nested(m.node):
+                if isinstance(x, ast.Attribute) and isinstance(x.value, ast.Name) and x.value.id == v and x.attr in ("set_jump_targets", "instructions", "jump_targets", "seal_outside_loop", "seal_inside_loop"):
+                    uses.append(x)
+            dn = cfg.node_of(cap)
+            for u in uses:
+                n += 1
+                un = cfg.node_of(u)
+                if dn is None or un is None:
+                    continue
+                if not any(d.stmt is cap for d in cfg.reaching_defs(u, v)):
+                    continue
+                key = f"{mname}: {v}.{u.attr} after the capture"
+                where = ctx.where(m, u)
+
+                def _opens(z) -> bool:
+                    if z.stmt is None or z is dn or z is un:
+                        return False
+                    roots = [z.stmt.test] if z.kind in ("if", "while") else ([z.stmt.iter] if z.kind == "for" else [z.stmt])
+                    return any(isinstance(c, ast.Call) and isinstance(c.func, ast.Attribute) and isinstance(c.func.value, ast.Name) and c.func.value.id == "self" and c.func.attr in em for r in roots for c in ast.walk(r))
+
+                between = [z for z in cfg.reachable(dn) if _opens(z) and un in cfg.reachable(z)]
+                if between:
+                    call_txt = A.unparse(between[0].stmt)[:50]
+                    out.append(bad("LOWER-20", m.qualname, key, where, f"{v} was read from self.current_block before '{call_txt}', which can open new blocks (an and/or in the lowered expression splits the block): {v}.{u.attr} then edits the block in front of the split - its branch is overwritten and the block that holds the lowered statements becomes unreachable"))
+                else:
+                    out.append(ok("LOWER-20", m.qualname, key, where, "no lowering call between the capture and the use"))
+    out.append(ok("LOWER-20", front.name, "census of captured current blocks", ctx.where(front.methods["transform"]) if "transform" in front.methods else "numba_scfg:1", f"{n} use(s) of a captured self.current_block", nontrivial=False))
+    return out
+
